@@ -21,15 +21,29 @@ def behaviours(cfg, n, seed, gen_att=7):
             res, behs = l0.generate(wd, dict(cfg, MaxAtt=gen_att), "g")
             behs = [b for b in behs if b["complete"]]
             if len(behs) < n:
-                res2, b2 = l0.generate(wd, dict(cfg, MaxAtt=gen_att + 5), "s", simulate_num=6 * n, seed=seed + 1)
+                # (a configuration whose histories need more attempts than the exhaustive bound is served by simulation;
+                #  a few hundred random behaviours are cheap and make sure that no plan item runs on an empty set)
+                res2, b2 = l0.generate(wd, dict(cfg, MaxAtt=gen_att + 7), "s", simulate_num=max(6 * n, 600), seed=seed + 1)
                 seen = {repr(b["hist"]) for b in behs}
                 behs += [b for b in b2 if b["complete"] and repr(b["hist"]) not in seen]
                 res.distinct += res2.distinct
                 res.generated += res2.generated
+            if len(behs) < max(2, n // 2):
+                # profiles that need many small steps ("valley"): longer random behaviours
+                res3, b3 = l0.generate(wd, dict(cfg, MaxAtt=gen_att + 14), "t", simulate_num=max(12 * n, 1500), seed=seed + 2)
+                seen = {repr(b["hist"]) for b in behs}
+                for b in b3:
+                    if b["complete"] and repr(b["hist"]) not in seen:
+                        seen.add(repr(b["hist"]))
+                        behs.append(b)
+                res.distinct += res3.distinct
+                res.generated += res3.generated
         finally:
             tlc.cleanup(wd)
         _BEH_CACHE[key] = (res, behs)
     res, behs = _BEH_CACHE[key]
+    if not behs:
+        raise tlc.MachineryError(f"no complete behaviour of {cfg['_name']} within {gen_att + 14} attempts: the plan item would be vacuous")
     rng = random.Random(seed)
     if len(behs) > n:
         behs = rng.sample(behs, n)
